@@ -33,6 +33,7 @@ type ProvCase struct {
 	ForeignAt int    `json:"foreign_at"` // delete: position of a non-member (-1 none)
 	Desired   int    `json:"desired"`
 	Min       int    `json:"min"`
+	Repeat    int    `json:"repeat,omitempty"` // fleet: the same failing scale-up this many times in a row (the documented third-failure exit)
 }
 
 type ProvSpec struct {
@@ -136,10 +137,11 @@ func runProviderInBubble(spec ProvSpec, stats *Stats, res *RunResult) {
 	if pc != nil {
 		fleet = pc.Kind == "fleet"
 		if pc.Kind == "fleet" {
-			size, min, max = 2, 0, 2+pc.Size+s.Intn(3)
+			size, min, max = 2, 0, 2+pc.Size*(1+pc.Repeat)+s.Intn(3)
 		} else {
 			size, min = pc.Desired, pc.Min
 			max = size + 5
+			fleet = pc.Lifecycle == "fleet"
 		}
 	}
 	if fleet {
@@ -390,6 +392,9 @@ func (p *provRun) judgeIncrease(d int64, k *KnownASG, err error, exit bool) {
 		c := sets[0]
 		if c.Target != g.ASG || c.Desired != k.Desired+d {
 			p.viol("C17", "c17-exact", "", p.siteAfterRemoval(), fmt.Sprintf("IncreaseSize(%d) on known desired %d issued SetDesiredCapacity(%s, %d)", d, k.Desired, c.Target, c.Desired), c)
+			if p.deletesSinceRefresh > 0 {
+				p.viol("C07", "c07-remainder", "provider", "after-same-scan-removal", fmt.Sprintf("after %d accepted termination(s) in the same scan the known desired size is %d; a request for %d more nodes issued SetDesiredCapacity(%d) instead of %d", p.deletesSinceRefresh, k.Desired, d, c.Desired, k.Desired+d), c)
+			}
 		}
 		if c.Desired < k.Desired {
 			p.viol("C17", "c17-lowered", "", "", fmt.Sprintf("scale-up lowered desired capacity %d -> %d", k.Desired, c.Desired), c)
@@ -748,6 +753,21 @@ func (p *provRun) directed(pc *ProvCase) {
 			w.cfg.ForceFault[key(OpTerminateEC2, pc.K2)] = FErrBefore
 		}
 		p.opIncrease(int64(pc.Size))
+		for r := 1; r < pc.Repeat && len(p.res.Violations) == 0 && !p.exited; r++ {
+			// the same failure again, after a refresh, as consecutive scans would meet it
+			p.opIdx++
+			p.opRefresh()
+			batches := (pc.Size + 19) / 20
+			switch pc.Failure {
+			case "attach":
+				w.cfg.ForceFault[key(OpAttach, w.occ[p.g.Name+"/"+OpAttach]+pc.K)] = FErrBefore
+			case "status-error":
+				w.cfg.ForceFault[key(OpStatus, w.occ[p.g.Name+"/"+OpStatus]+pc.K)] = FErrBefore
+			}
+			_ = batches
+			p.opIdx++
+			p.opIncrease(int64(pc.Size))
+		}
 	case "delete":
 		k := p.known()
 		var members []string
@@ -767,5 +787,9 @@ func (p *provRun) directed(pc *ProvCase) {
 			w.cfg.ForceFault[key(OpTerminateASG, pc.K)] = FErrBefore
 		}
 		p.opDelete(nodes)
+		if pc.K2 > 0 && len(p.res.Violations) == 0 { // then a scale-up in the same scan (no refresh in between)
+			p.opIdx = 2
+			p.opIncrease(int64(pc.K2))
+		}
 	}
 }
